@@ -43,6 +43,7 @@ func runMouse(cfg hx.Config, ch *simrt.Chooser, reps []mrep, text []string, cuts
 		return nil, err
 	}
 	mm := &mouseModel{w: cfg.W, h: cfg.H}
+	w.S.Note(hx.Fingerprint(cfg, reps, text, cuts))
 	var in []byte
 	var want []string
 	var strict []bool
